@@ -268,6 +268,12 @@ Result execute(const Plan &p) {
         auto fixed_point = [&](auto &R, const char *which) {
             for (int pre = 0; pre < 2; ++pre) { std::vector<double> x = w.xs; sweep(R, w, x, pre, 0); double d = max_abs_diff(x, w.xs); if (!(d <= 1e-9 * xscale)) res.fail(sig("fixed-point", which, fmt("%s-sweep moves the exact solution by %.3g", pre ? "pre" : "post", d))); }
         };
+        // pre- and post-sweep are the same map for every smoother except Gauss-Seidel (forward / backward)
+        auto pre_equals_post = [&](auto &R, const char *which) {
+            std::vector<double> a = w.x0, b = w.x0; sweep(R, w, a, true, 0); sweep(R, w, b, false, 0);
+            if (first_diff(a, b) != -1) { long d = first_diff(a, b); res.fail(sig("pre-equals-post", which, fmt("pre- and post-sweep from the same x differ at %ld: %.17g vs %.17g", d, d >= 0 ? a[d] : 0.0, d >= 0 ? b[d] : 0.0))); }
+            if (max_abs_diff(a, w.x0) == 0 && max_abs_diff(w.x0, w.xs) > 0) res.fail(sig("pre-equals-post", which, "the sweep leaves a wrong x untouched"));
+        };
         auto record = [&](auto &R) { if (outs) { std::vector<double> x = w.x0; sweep(R, w, x, true, 0); sweep(R, w, x, false, 0); outs->push_back(x); } };
         // (LU)_ij = a_ij on the pattern of A; optionally everywhere
         // apply() (the smoother used as a stand-alone preconditioner) is consistent with the sweeps: it overwrites x with
@@ -327,7 +333,7 @@ Result execute(const Plan &p) {
         };
         bool exact_shape = shape != 0;
         switch (rl) {
-        case R_JACOBI: { typedef rx::damped_jacobi<DBackend> R; R::params pr; pr.damping = (float)damping; R r(*w.M, pr, bp); fixed_point(r, "damped_jacobi"); record(r); apply_check(r, 2, "damped_jacobi"); as_precond_check<rx::damped_jacobi>(w, pr, res, "damped_jacobi", shape);
+        case R_JACOBI: { typedef rx::damped_jacobi<DBackend> R; R::params pr; pr.damping = (float)damping; R r(*w.M, pr, bp); fixed_point(r, "damped_jacobi"); record(r); apply_check(r, 2, "damped_jacobi"); pre_equals_post(r, "damped_jacobi"); as_precond_check<rx::damped_jacobi>(w, pr, res, "damped_jacobi", shape);
             std::vector<double> x = w.x0; sweep(r, w, x, true, 0);
             for (long i = 0; i < n; ++i) { long double t = w.f[i], d = 1; for (ptrdiff_t j = w.A.ptr[i]; j < w.A.ptr[i+1]; ++j) { t -= (long double)w.A.val[j] * w.x0[w.A.col[j]]; if (w.A.col[j] == i) d = w.A.val[j]; }
                 double want = (double)(w.x0[i] + (long double)(double)pr.damping / d * t); if (!(std::fabs(x[i] - want) <= 1e-12 * (1 + std::fabs(want)))) { res.fail(sig("definition", "x+omega*D^-1*(f-Ax)", fmt("row %ld: %.17g, definition %.17g", i, x[i], want))); break; } }
@@ -342,12 +348,12 @@ Result execute(const Plan &p) {
             }
             if (!rp.is_serial) res.counts["gs_parallel_path"]++;
             break; }
-        case R_SPAI0: { typedef rx::spai0<DBackend> R; R r(*w.M, R::params(), bp); fixed_point(r, "spai0"); record(r); apply_check(r, 0, "spai0"); as_precond_check<rx::spai0>(w, R::params(), res, "spai0", shape);
+        case R_SPAI0: { typedef rx::spai0<DBackend> R; R r(*w.M, R::params(), bp); fixed_point(r, "spai0"); record(r); apply_check(r, 0, "spai0"); pre_equals_post(r, "spai0"); as_precond_check<rx::spai0>(w, R::params(), res, "spai0", shape);
             std::vector<double> x = w.x0; sweep(r, w, x, true, 0);
             for (long i = 0; i < n; ++i) { long double t = w.f[i], num = 0, den = 0; for (ptrdiff_t j = w.A.ptr[i]; j < w.A.ptr[i+1]; ++j) { t -= (long double)w.A.val[j] * w.x0[w.A.col[j]]; den += (long double)w.A.val[j] * w.A.val[j]; if (w.A.col[j] == i) num += w.A.val[j]; }
                 double want = (double)(w.x0[i] + num / den * t); if (!(std::fabs(x[i] - want) <= 1e-12 * (1 + std::fabs(want)))) { res.fail(sig("definition", "row-wise-least-squares-diagonal", fmt("row %ld: %.17g, definition %.17g", i, x[i], want))); break; } }
             break; }
-        case R_SPAI1: { typedef rx::spai1<DBackend> R; R r(*w.M, R::params(), bp); fixed_point(r, "spai1"); record(r); apply_check(r, 0, "spai1"); as_precond_check<rx::spai1>(w, R::params(), res, "spai1", shape);
+        case R_SPAI1: { typedef rx::spai1<DBackend> R; R r(*w.M, R::params(), bp); fixed_point(r, "spai1"); record(r); apply_check(r, 0, "spai1"); pre_equals_post(r, "spai1"); as_precond_check<rx::spai1>(w, R::params(), res, "spai1", shape);
             if (n <= 40) { Eigen::MatrixXd M = extract(r, w, true), D = edense(w.A), G = (M * D - Eigen::MatrixXd::Identity(n, n)) * D.transpose();
                 double sc = D.cwiseAbs().maxCoeff(); sc = sc * sc;
                 for (long i = 0; i < n; ++i) for (ptrdiff_t j = w.A.ptr[i]; j < w.A.ptr[i+1]; ++j) if (!(std::fabs(G(i, w.A.col[j])) <= 1e-9 * sc * (1 + M.row(i).cwiseAbs().maxCoeff()))) { res.fail(sig("definition", "least-squares-normal-equations", fmt("row %ld, pattern column %ld: gradient %.3g", i, (long)w.A.col[j], G(i, w.A.col[j])))); i = n; break; }
@@ -357,7 +363,7 @@ Result execute(const Plan &p) {
             break; }
         case R_CHEB: { typedef rx::chebyshev<DBackend> R; R::params pr; pr.degree = (unsigned)p.get("degree"); pr.power_iters = (int)p.get("power_iters"); pr.scale = p.get("cheb_scale") != 0;
             { static const float hs[] = { 1.0f, 1.0f, 1.1f, 1.25f }, ls[] = { 1.0f / 30, 1.0f / 30, 0.1f, 0.25f }; pr.higher = hs[p.get("cheb_hi") % 4]; pr.lower = ls[p.get("cheb_lo") % 4]; }
-            R r(*w.M, pr, bp); fixed_point(r, "chebyshev"); record(r); apply_check(r, 0, "chebyshev");
+            R r(*w.M, pr, bp); fixed_point(r, "chebyshev"); record(r); apply_check(r, 0, "chebyshev"); pre_equals_post(r, "chebyshev");
             // definition: after the sweep the error is q(A') e with q(t) = T_d((d - t)/c) / T_d(d/c), A' = A or D^-1 A, [lo, hi] from the
             // Gershgorin bound (power_iters = 0): evaluated with the matrix Chebyshev recurrence on a dense copy
             if (pr.power_iters == 0 && n <= 48) {
@@ -383,7 +389,7 @@ Result execute(const Plan &p) {
             std::vector<double> xs = w.x0, xp = w.x0; sweep(rs, w, xs, true, 0); sweep(rp, w, xp, true, 0); \
             { double d = max_abs_diff(xs, xp); if (!(d <= 1e-10 * (1 + max_abs(xs)))) res.fail(sig("parallel-equals-serial", "level-scheduled-triangular-solve", fmt("nt=%d: max difference %.3g", nt, d))); } \
             res.counts["ilu_parallel_path"]++; damping = (double)(float)damping; \
-            apply_check(rs, 2, #T "-serial"); apply_check(rp, 2, #T); as_precond_check<rx::T>(w, pp, res, #T, shape); \
+            apply_check(rs, 2, #T "-serial"); apply_check(rp, 2, #T); pre_equals_post(rs, #T "-serial"); pre_equals_post(rp, #T); as_precond_check<rx::T>(w, pp, res, #T, shape); \
             if (PATTERN_OK) lu_identity(rs, false, "pattern-of-A"); if (EXACT_OK) lu_identity(rs, true, "exact-factors-fit"); EXTRA; }
         case R_ILU0: ILU_BLOCK(ilu0, (void)0, true, exact_shape, (void)0) break;
         case R_ILUK: ILU_BLOCK(iluk, ps.k = pp.k = (int)k, true, exact_shape || k > n, iluk_reference(rs)) break;
